@@ -57,6 +57,8 @@ pub fn entry_points() -> Vec<EntryPoint> {
     }));
     v.push(ep("StackByteArray<300>::gen", || Ok(StackByteArray::<300>::gen().to_vec())));
     v.push(ep("Vec<u8> as NewByteArray<513>::gen", || Ok(<Vec<u8> as NewByteArray<513>>::gen())));
+    v.push(ep("[u8; 48] as NewByteArray<48>::gen", || Ok(<[u8; 48] as NewByteArray<48>>::gen().to_vec())));
+    v.push(ep("StackByteArray<24>::gen (Nonce)", || Ok(dryoc::dryocbox::Nonce::gen().to_vec())));
     v.push(ep("rng::copy_randombytes(40)", || {
         let mut b = vec![0u8; 40];
         dryoc::rng::copy_randombytes(&mut b);
